@@ -16,6 +16,26 @@ Proof.
   apply Z.eqb_neq. cbn [length]. lia.
 Qed.
 
+(* comparisons of len(<list with a known prefix>) with a constant, whichever way they are written (==, !=, <, <=, >, >=) *)
+Ltac len_contra H := exfalso; unfold len_z in H; cbn [length] in H; lia.
+Ltac decide_lens :=
+  repeat match goal with
+         | |- context [len_z (@nil ?X)] => change (len_z (@nil X)) with 0%Z
+         | |- context [len_z [?a]] => change (len_z [a]) with 1%Z
+         | |- context [Z.eqb (len_z ?l) ?c] =>
+             let H := fresh "Hlen" in destruct (Z.eqb_spec (len_z l) c) as [H|H]; [len_contra H|clear H]
+         | |- context [Z.eqb ?c (len_z ?l)] =>
+             let H := fresh "Hlen" in destruct (Z.eqb_spec c (len_z l)) as [H|H]; [len_contra H|clear H]
+         | |- context [Z.ltb (len_z ?l) ?c] =>
+             let H := fresh "Hlen" in destruct (Z.ltb_spec0 (len_z l) c) as [H|H]; try (len_contra H); clear H
+         | |- context [Z.ltb ?c (len_z ?l)] =>
+             let H := fresh "Hlen" in destruct (Z.ltb_spec0 c (len_z l)) as [H|H]; try (len_contra H); clear H
+         | |- context [Z.leb (len_z ?l) ?c] =>
+             let H := fresh "Hlen" in destruct (Z.leb_spec0 (len_z l) c) as [H|H]; try (len_contra H); clear H
+         | |- context [Z.leb ?c (len_z ?l)] =>
+             let H := fresh "Hlen" in destruct (Z.leb_spec0 c (len_z l)) as [H|H]; try (len_contra H); clear H
+         end.
+
 Lemma static_not_class : forall f, text_eqb f t_staticmethod = true -> text_eqb f t_classmethod = true -> False.
 Proof. intros f H1 H2. apply text_eqb_eq in H1. apply text_eqb_eq in H2. subst. discriminate. Qed.
 
@@ -131,8 +151,12 @@ Section ElemsCode.
     match goal with
     | |- context [for_loop ?body ?x (map ival_of_value l) ?en hk] => destruct (for_loop body x (map ival_of_value l) en hk) eqn:Ef
     end; try contradiction.
-    - destruct Hloop as [-> [S' [Hp He]]]. rewrite Hp. cbn [exec eval]. rewrite He. cbn. rewrite len_z_single.
-      destruct S' as [|a [|b r]]; cbn; reflexivity.
+    - (* after the loop: the three sizes of the set; the rest of the body is run symbolically, reading the set variable
+         wherever the code does *)
+      destruct Hloop as [-> [S' [Hp He]]]. rewrite Hp.
+      destruct S' as [|a [|b r]];
+        repeat first [ progress cbn | progress (rewrite ?He) | progress (unfold setv at 1) | progress decide_lens ];
+        reflexivity.
     - destruct Hloop as [-> [-> Hp]]. rewrite Hp. reflexivity.
   Qed.
 End ElemsCode.
@@ -251,7 +275,7 @@ Section OldschoolCode.
     (* the shape of the assigned expression *)
     destruct e as [[f args| |]|]; cbn; try reflexivity.
     destruct f as [f0 a0|f| ]; cbn; try reflexivity.
-    destruct args as [|a [|b r]]; cbn; rewrite ?len_z_single; cbn; try reflexivity; try (destruct a; reflexivity).
+    destruct args as [|a [|b r]]; cbn; decide_lens; cbn; try reflexivity; try (destruct a; reflexivity).
     destruct a as [f1 a1|a| ]; cbn; try reflexivity.
     (* symbolic execution: every string comparison, the object found, the kind it has *)
     unfold setv; cbn; rewrite ?(text_eqb_sym a target); cbn.
